@@ -20,7 +20,7 @@ void harness(void){
 #endif
   for(size_t lv=0;lv<HP_NLV;lv++)for(size_t j=0;j<HP_NY;j++){
     dvector *a,*b; NewDVector(&a,HP_N); NewDVector(&b,HP_N); for(size_t i=0;i<HP_N;i++){ a->data[i]=yt->data[i][j]; b->data[i]=yp->data[i][HP_NY*lv+j]; }
-    { double s=0; for(size_t i=0;i<HP_N;i++) s+=a->data[i]; double q=0; for(size_t i=0;i<HP_N;i++) q+=(a->data[i]-s/HP_N)*(a->data[i]-s/HP_N); ASSUME(q>=1e-6); }
+    { double s=0; for(size_t i=0;i<HP_N;i++) s+=a->data[i]; double q=0; for(size_t i=0;i<HP_N;i++) q+=(a->data[i]-s/HP_N)*(a->data[i]-s/HP_N); ASSUME(q>=1e-12); }
 #if HP_MLR
     CHECK_EQ(cc->data[j], R2(a,b), "table entry = R2 of (true column j, predicted column j)"); CHECK_EQ(rm->data[j], RMSE(a,b), "table entry = RMSE"); CHECK_EQ(bi->data[j], BIAS(a,b), "table entry = BIAS");
 #else
